@@ -168,7 +168,7 @@ def fits_bounded_instance():
     from pb_bss.distribution import CACGMMTrainer, CWMMTrainer, GMMTrainer, VMFMMTrainer, GCACGMMTrainer, VMFCACGMMTrainer, CBMMTrainer
 
     def make(B):
-        return {'which': B.choose('which', ['cacgmm', 'cacgmm-mask', 'cwmm', 'gmm-full', 'gmm-diagonal', 'gmm-spherical', 'vmfmm', 'gcacgmm', 'vmfcacgmm', 'cbmm', 'gcacgmm-ipa', 'vmfcacgmm-ipa', 'gcacgmm-ipa', 'vmfcacgmm-ipa']),
+        return {'which': B.choose('which', ['cacgmm', 'cacgmm-mask', 'cwmm', 'gmm-full', 'gmm-diagonal', 'gmm-spherical', 'vmfmm', 'gcacgmm', 'vmfcacgmm', 'cbmm', 'cbmm-tied', 'gcacgmm-ipa', 'vmfcacgmm-ipa', 'gcacgmm-ipa', 'vmfcacgmm-ipa']),
                 'K': B.choose('K', [2, 3, 3, 4]), 'it': B.choose('it', [1, 2, 5, 20]), 'wca': B.choose('wca', [(-1,), (-3,), (-3, -1)]),
                 'seed': B.choose('seed', list(range(3000))), 'd': B.given('d', np.zeros(1))}
 
@@ -177,11 +177,18 @@ def fits_bounded_instance():
         which, K, it = inp['which'], inp['K'], inp['it']
         F, N, D = 2, 30, 3
         cplx = not (which.startswith('gmm') or which == 'vmfmm')
+        tied = which == 'cbmm-tied'
+        if tied:
+            which = 'cbmm'
         if which == 'cbmm':
-            F, N, it = 1, 10, 1
+            F, N, it = 1, (40 if tied else 10), 1
         y = rng.normal(size=(F, N, D)) + (1j * rng.normal(size=(F, N, D)) if cplx else 0)
         emb = rng.normal(size=(F, N, 4))
         init = np.moveaxis(rng.dirichlet(np.ones(K), size=(F, N)), -1, -2).copy()
+        if tied and K >= 2:
+            # two classes with almost the same soft assignment: their scatter spectra agree to about 1e-5 without being equal
+            init[:, 1] = init[:, 0] * (1 + 1e-5 * rng.normal(size=init[:, 0].shape))
+            init /= init.sum(-2, keepdims=True)
         perm = rng.permutation(K)
         mask = rng.rand(F, K, N) < 0.9
         mask[:, :, 0] = True
